@@ -269,10 +269,47 @@ def patch_filter(ctx, fx, sp):
     body = ctx.body(fn)
     marker = sp["patch_marker"]
     splits = [e for p in paths for e in p.calls("::split") if "BufRead" in e.path]
-    ok = bool(splits) and all(const_int(e.args[1]) == 10 for e in splits)
-    ctx.check(ok, "D5-SPLIT", fn, "delimiter", "lines come from BufRead::split(b'\\n')",
-              "lines are not produced by BufRead::split on byte 10", fn_span(body))
+    ru = [e for p in paths for e in p.calls("BufRead::read_until")]
     backs = [p for p in paths if p.end[0] == "back"]
+    bufline = {}
+    if not splits and ru:
+        # the other way to take lines off a reader: one buffer, per iteration  clear(); n = read_until(b'\n', &mut buf)?; n == 0 ends the loop;
+        # the delimiter, if it was read, is popped off.  What is left in the buffer is the line as BufRead::split would have delivered it.
+        okp = all(const_int(e.args[1]) == 10 for e in ru) and bool(backs)
+
+        def loc_of(a):
+            return a[1][1] if isinstance(a, tuple) and a[0] == "refmut" and isinstance(a[1], tuple) and a[1][0] == "loc" else None
+        for p in backs + [q for q in ret_paths(paths)]:
+            r_ = [e for e in p.events if ev_is(e, "BufRead::read_until")]
+            if len(r_) != 1:
+                okp = okp and p not in backs and not r_
+                continue
+            L = loc_of(r_[0].args[2])
+            muts = [e for e in p.events if e.kind == "call" and e.args and loc_of(e.args[0]) == L and L is not None] + ([r_[0]])
+            muts = sorted({id(e): e for e in muts}.values(), key=lambda e: p.events.index(e))
+            names = [mir.norm_path(e.path).rsplit("::", 1)[-1] for e in muts]
+            zero = [c for c in p.conds() if isinstance(c.term, tuple) and c.term[0] == "binop" and c.term[1] in ("Eq", "Ne") and const_int(c.term[3]) == 0 and mentions(c.term[2], lambda s_: s_ == r_[0].term)]
+            okd = [c for c in p.conds() if c.term[0] == "discr" and strip_refs(c.term[1]) == r_[0].term]
+            if okd and okd[-1].fact != ("eq", 0):
+                continue            # the read failed: the error path (D5-ERRPROP)
+            ended = bool(zero) and ((zero[-1].fact == ("eq", True)) == (zero[-1].term[1] == "Eq"))
+            okp = okp and L is not None and names[:2] == ["clear", "read_until"] and bool(zero)
+            if p in backs:
+                lastc = [c for c in p.conds() if eq_call(c.term) and mentions(c.term, lambda s_: is_call(s_, "[T]>::last")) and mentions(c.term, lambda s_: s_[0] == "agg" and s_[3] == "Some" and const_int(s_[4][0]) == 10)]
+                has_nl = bool(lastc) and ((lastc[-1].fact == ("eq", True)) != eq_call(lastc[-1].term)[0])
+                okp = okp and not ended and bool(lastc) and names[2:] == (["pop"] if has_nl else [])
+                bufline[id(p)] = L
+            else:
+                okp = okp and ended and names[2:] == []
+        rd = [e.args[0] for e in ru]
+        okr = all(mentions(a, lambda s_: is_call(s_, "BufReader::new", "BufReader::<R>::new") and strip_refs(call_args(s_)[0]) == ("param", 1)) for a in rd)
+        ok = okp and okr
+        ctx.check(ok, "D5-SPLIT", fn, "delimiter", "lines are read with clear(); read_until(b'\\n'); stop at 0; pop the delimiter (one reused buffer)",
+                  "the read_until line loop is not `clear, read up to byte 10, stop when nothing was read, drop the delimiter if present`", fn_span(body))
+    else:
+        ok = bool(splits) and all(const_int(e.args[1]) == 10 for e in splits)
+        ctx.check(ok, "D5-SPLIT", fn, "delimiter", "lines come from BufRead::split(b'\\n')",
+                  "lines are not produced by BufRead::split on byte 10", fn_span(body))
     ctx.floor("D5-FILTER", fn, "loop back-edge paths", len(backs), 2)
     saw_skip = saw_keep = False
     for i, p in enumerate(backs):
@@ -316,6 +353,23 @@ def patch_filter(ctx, fx, sp):
             # the line as the splitter delivered it: the Ok payload of Split::next()'s item, not a local that was edited in between (pop, truncate, retain ...)
             lt = line_t
             pristine = isinstance(lt, tuple) and lt and lt[0] != "mutated" and not is_call(lt) and mentions(lt, lambda s_: is_call(s_, "io::Split<B> as std::iter::Iterator>::next", "Split as std::iter::Iterator>::next"))
+            if id(p) in bufline:
+                # the buffer of the read_until loop, as left by clear / read_until / pop-of-the-delimiter (D5-SPLIT), not edited again before it is hashed
+                L = bufline[id(p)]
+                l0 = lt
+                while is_call(l0, "Deref>::deref", "::as_slice") and call_args(l0):
+                    l0 = strip_refs(call_args(l0)[0])
+                later = [e for e in p.events if e.kind == "call" and e.args and isinstance(e.args[0], tuple) and e.args[0][0] == "refmut" and isinstance(e.args[0][1], tuple)
+                         and e.args[0][1][:2] == ("loc", L) and p.events.index(e) > p.events.index(a)]
+                pristine = isinstance(l0, tuple) and l0[0] == "mutated" and l0[1] == L and not later
+                line_t = l0
+                ups = [u_ for u_ in ups]
+                if len(ups) == 2:
+                    u0 = strip_refs(ups[0].args[1])
+                    while is_call(u0, "Deref>::deref", "::as_slice") and call_args(u0):
+                        u0 = strip_refs(call_args(u0)[0])
+                    if u0 == l0:
+                        line_t = strip_refs(ups[0].args[1])
             ok = len(ups) == 2 and strip_refs(ups[0].args[1]) == line_t and const_bytes(ups[1].args[1]) == "\n" and pristine
             if not ok and pristine and len(ups) == 1:
                 # the same bytes in one call: line.push(b'\n'); update(&line) - the only edit of the line between the filter and the update
